@@ -121,7 +121,8 @@ func (s *gridScreen) StyledLine(x, w, y int) Line {
 		isRepeat := true
 		for k := 0; k < width; k++ {
 			idx := start + k
-			if text[idx] != firstRune || s.cellWidth[y][idx] != 1 || s.cellCont[y][idx] {
+			// A cell that holds more than the rune itself (merged combining marks) needs its text.
+			if text[idx] != firstRune || s.cellWidth[y][idx] != 1 || s.cellCont[y][idx] || len(cellText[idx]) != utf8.RuneLen(firstRune) {
 				isRepeat = false
 				break
 			}
